@@ -9,7 +9,7 @@ from qsim import plan as P
 from qsim.core import Run
 
 PROP = "C18"
-QUICK_RUNS = 6400
+QUICK_RUNS = 9600
 RULE = (
     "one case = one training run (<= 25 epochs, one batch per epoch) with a MetricEvaluator or ObservableEvaluator fed by a "
     "scripted sensor (monotone / oscillating / constant / with zeros / converging at a chosen step; scripted variance) and an "
@@ -65,7 +65,16 @@ def generate(seed, tier):
     klass = "EarlyStopping"
     if crit == "variance" and r.random() < 0.4:
         klass = "VarianceBased"
-    kind, vals, spreads = gen_script(r, epochs + 2)
+    runs = [{"epochs": epochs, "starting_epoch": 1}]
+    if r.random() < 0.15:
+        runs[0]["external_stop"] = r.randint(1, epochs)
+    if r.random() < 0.25:
+        e2 = r.randint(2, 12)
+        if r.random() < 0.5:
+            runs.append({"epochs": e2, "starting_epoch": 1, "clear": r.random() < 0.7})
+        else:
+            runs.append({"epochs": epochs + e2, "starting_epoch": epochs + 1, "clear": r.random() < 0.4})
+    kind, vals, spreads = gen_script(r, epochs + 16)
     scale = max(1e-9, max(abs(v) for v in vals))
     tol = r.choice([0.0, 1e-6, 1e-3 * scale, 0.05 * scale, 0.5 * scale, 1.0, 10.0, float("inf")])
     return {
@@ -75,6 +84,7 @@ def generate(seed, tier):
         "config": {
             "state": {"type": r.choice(["positive", "positive", "complex"]), "nv": 2, "nh": 1, "scale": 0.1, "pseed": P.s64(r)},
             "epochs": epochs,
+            "runs": runs,
             "evaluator": evk,
             "ev_period": r.choice([1, 1, 2, 3, 4]),
             "es_period": r.choice([1, 1, 2, 3, 4]),
@@ -199,85 +209,112 @@ def execute(plan):
                 cur["epoch"] = args[0]
 
         pair = [ev, es] if c["order"] == "eval_first" else [es, ev]
-        tc = {"epochs": c["epochs"], "starting_epoch": 1, "pos_bs": 2, "neg_bs": None, "k": 1, "lr": 0.01, "time": False}
-        with warnings.catch_warnings():
-            warnings.simplefilter("ignore")
-            info = run_fit(run, state, tc, data_in, bases, n_wit=1, handler=handler, cbs_between=pair, snapshot=False)
+        p = c["patience"]
+        tol = c["tolerance"]
+        crit = c["criterion"]
+        detail = dict(patience=p, criterion=crit, evaluator=c["evaluator"], order=c["order"], ev_period=c["ev_period"], es_period=c["es_period"], klass=c["klass"])
+        runs = c.get("runs") or [{"epochs": c["epochs"], "starting_epoch": 1}]
+        h0 = 0  # evaluations before this index were cleared from the evaluator
+        outcomes = []
+        total_ees = 0
+        for ri, rr in enumerate(runs):
+            if ri > 0:
+                state.stop_training = False  # the user re-arms training
+                if rr.get("clear"):
+                    ev.clear_history()
+                    h0 = len(H)
+            log_start = len(run.log.entries)
+            c0 = len(consulted)
+            hstart = len(H)
+            tc = {"epochs": rr["epochs"], "starting_epoch": rr.get("starting_epoch", 1), "pos_bs": 2, "neg_bs": None, "k": 1, "lr": 0.01, "time": False}
+            faults = []
+            e_ext = rr.get("external_stop")
+            if e_ext is not None:
+                # another stop source: the witness (listed BEFORE evaluator and stopper) requests a stop at the end of epoch e_ext
+                faults.append({"kind": "stop_cb", "event": 4 * (e_ext - tc["starting_epoch"] + 1), "cb": 0})
+            with warnings.catch_warnings():
+                warnings.simplefilter("ignore")
+                info = run_fit(run, state, tc, data_in, bases, n_wit=1, handler=handler, cbs_between=pair, snapshot=False, faults=faults)
+            items, _ = protocol.extract(run, 1, frm=log_start)
+            ees = [it[2][0] for it in items if it[0] == "ev" and it[1] == "EE"]
+            total_ees += len(ees)
+            last_epoch_run = ees[-1] if ees else None
+            ext_fired = any(it[0] == "stop" for it in items)
+            # ---- reference decision procedure on the recorded history ------------------
+            ref_stop = None
+            unspecified_at = None
+            for epoch, nH_abs in consulted[c0:]:
+                nH = nH_abs - h0
+                if nH <= p:
+                    continue
+                curv = H[nH_abs - 1]
+                refv = H[nH_abs - 1 - p]
+                if crit == "relative":
+                    if refv[1] == 0:
+                        unspecified_at = epoch
+                        break
+                    dev = abs((refv[1] - curv[1]) / refv[1])
+                elif crit == "absolute":
+                    dev = abs(refv[1] - curv[1])
+                else:
+                    if refv[2] is None or not (refv[2] > 0):
+                        unspecified_at = epoch
+                        break
+                    dev = abs(refv[1] - curv[1]) / math.sqrt(refv[2])
+                if dev < tol:
+                    ref_stop = epoch
+                    break
+            d2 = dict(detail, run=ri, cleared=bool(rr.get("clear")), external_stop=e_ext)
+            raised = info["raised"]
+            if unspecified_at is not None:
+                run.probes["unspecified_zero_denominator"] += 1
+                # judge only what happened strictly before the unspecified check
+                if raised is None and last_epoch_run is not None and last_epoch_run < unspecified_at and not (ext_fired and last_epoch_run == e_ext):
+                    run.violate("18-early", f"run {ri}: training stopped at epoch {last_epoch_run}, before any check could have met the rule", **d2)
+                outcomes.append("unspecified")
+                break  # what follows an unspecified check is not judged
+            if raised is not None:
+                run.lib_exception(raised, "fit with early stopping", **d2)
+                outcomes.append("raised")
+                break
+            stops = [x for x in (ref_stop, e_ext if ext_fired else None) if x is not None]
+            want_last = min(stops) if stops else rr["epochs"]
+            if last_epoch_run != want_last:
+                if stops and (last_epoch_run or 0) > want_last:
+                    why = f"rule met at epoch {ref_stop} (patience {p}, {crit})" if ref_stop == want_last else f"another callback requested a stop at epoch {e_ext}"
+                    run.violate("18-late", f"run {ri}: {why} but training ran until epoch {last_epoch_run}", **d2)
+                elif not stops:
+                    run.violate("18-early", f"run {ri}: training stopped at epoch {last_epoch_run} although the rule was never met in epochs {tc['starting_epoch']}..{rr['epochs']}", **d2)
+                else:
+                    run.violate("18-early", f"run {ri}: training stopped at epoch {last_epoch_run}, the rule is first met at epoch {ref_stop}", **d2)
+            if ref_stop is not None and es.last_epoch != ref_stop:
+                run.violate("18-last-epoch", f"run {ri}: last_epoch is {es.last_epoch}, reference stop epoch is {ref_stop}", **d2)
+            if ref_stop is None and ri == 0 and es.last_epoch is not None:
+                run.violate("18-last-epoch", f"run {ri}: last_epoch is {es.last_epoch} although the rule was never met", **d2)
+            if stops and not info["flag_after"]:
+                run.violate("18-flag", f"run {ri}: a stop was due ({'rule met' if ref_stop is not None else 'requested by another callback'}) but stop_training is not set after fit", **d2)
+            if not stops and info["flag_after"]:
+                run.violate("18-early", f"run {ri}: stop_training set although the rule was never met", **d2)
+            # evaluator schedule sanity for the history itself (the stopper's input)
+            want_eval_epochs = [e for e in ees if e % c["ev_period"] == 0]
+            got_eval_epochs = [h[0] for h in H[hstart:]]
+            if got_eval_epochs != want_eval_epochs:
+                run.violate("18-history", f"run {ri}: evaluations happened at epochs {got_eval_epochs[:8]}, expected {want_eval_epochs[:8]}", **d2)
+            outcomes.append(("stop", ref_stop) if ref_stop is not None else ("ext", e_ext) if ext_fired else "ran-out")
+            if ref_stop is not None:
+                run.probes["stopped_by_rule"] += 1
+            if ext_fired:
+                run.probes["external_stop_fired"] += 1
         rng.check_global()
 
-    items, _ = protocol.extract(run, 1)
-    ees = [it[2][0] for it in items if it[0] == "ev" and it[1] == "EE"]
-    last_epoch_run = ees[-1] if ees else None
-
-    # ---- reference decision procedure on the recorded history ------------------
-    p = c["patience"]
-    tol = c["tolerance"]
-    crit = c["criterion"]
-    ref_stop = None
-    unspecified_at = None
-    for epoch, nH in consulted:
-        if nH <= p:
-            continue
-        curv = H[nH - 1]
-        refv = H[nH - 1 - p]
-        if crit == "relative":
-            if refv[1] == 0:
-                unspecified_at = epoch
-                break
-            dev = abs((refv[1] - curv[1]) / refv[1])
-        elif crit == "absolute":
-            dev = abs(refv[1] - curv[1])
-        else:
-            if refv[2] is None or not (refv[2] > 0):
-                unspecified_at = epoch
-                break
-            dev = abs(refv[1] - curv[1]) / math.sqrt(refv[2])
-        if dev < tol:
-            ref_stop = epoch
-            break
-    detail = dict(patience=p, criterion=crit, evaluator=c["evaluator"], order=c["order"], ev_period=c["ev_period"], es_period=c["es_period"], klass=c["klass"])
-    raised = info["raised"]
-    if unspecified_at is not None:
-        run.probes["unspecified_zero_denominator"] += 1
-        # judge only what happened strictly before the unspecified check
-        if raised is None and last_epoch_run is not None and last_epoch_run < unspecified_at:
-            run.violate("18-early", f"training stopped at epoch {last_epoch_run}, before any check could have met the rule", **detail)
-        outcome = "unspecified"
-    else:
-        if raised is not None:
-            run.lib_exception(raised, "fit with early stopping", **detail)
-            outcome = "raised"
-        else:
-            want_last = ref_stop if ref_stop is not None else c["epochs"]
-            if last_epoch_run != want_last:
-                if ref_stop is not None and (last_epoch_run or 0) > ref_stop:
-                    run.violate("18-late", f"rule met at epoch {ref_stop} (patience {p}, {crit}) but training ran until epoch {last_epoch_run}", **detail)
-                elif ref_stop is None:
-                    run.violate("18-early", f"training stopped at epoch {last_epoch_run} although the rule was never met in {c['epochs']} epochs", **detail)
-                else:
-                    run.violate("18-early", f"training stopped at epoch {last_epoch_run}, the rule is first met at epoch {ref_stop}", **detail)
-            if es.last_epoch != ref_stop:
-                run.violate("18-last-epoch", f"last_epoch is {es.last_epoch}, reference stop epoch is {ref_stop}", **detail)
-            if ref_stop is not None and not info["flag_after"]:
-                run.violate("18-flag", "rule met but stop_training is not set after fit", **detail)
-            if ref_stop is None and info["flag_after"]:
-                run.violate("18-early", "stop_training set although the rule was never met", **detail)
-            outcome = ("stop", ref_stop) if ref_stop is not None else "ran-out"
-    # evaluator schedule sanity for the history itself (the stopper's input)
-    want_eval_epochs = [e for e in ees if e % c["ev_period"] == 0]
-    got_eval_epochs = [h[0] for h in H]
-    if raised is None and got_eval_epochs != want_eval_epochs:
-        run.violate("18-history", f"evaluations happened at epochs {got_eval_epochs[:8]}, expected {want_eval_epochs[:8]}", **detail)
     tolc = "0" if tol == 0 else ("inf" if tol == float("inf") else "mid")
-    run.trace = trace + [tolc, outcome, len(H), len(consulted)]
+    run.trace = trace + [tolc, outcomes, len(H), len(consulted), [(rr["epochs"], bool(rr.get("clear")), rr.get("external_stop")) for rr in runs]]
     run.nontrivial = len(consulted) >= 2
-    run.sim["epochs"] += len(ees)
+    run.sim["epochs"] += total_ees
     run.sim["evaluations"] += len(H)
     run.sim["stopper_checks"] += len(consulted)
     if p == 1:
         run.probes["patience_1"] += 1
-    if ref_stop is not None:
-        run.probes["stopped_by_rule"] += 1
     return run.result()
 
 
@@ -290,9 +327,21 @@ def shrink(plan):
         q["config"].update(kw)
         return q
 
-    if c["epochs"] > 2:
-        out.append(v(epochs=c["epochs"] - 1))
-        out.append(v(epochs=max(2, c["epochs"] // 2)))
+    runs = c.get("runs") or [{"epochs": c["epochs"], "starting_epoch": 1}]
+    if len(runs) > 1:
+        out.append(v(runs=runs[:1]))
+    if runs[0].get("external_stop") is not None:
+        q = copy.deepcopy(plan)
+        q["config"]["runs"][0].pop("external_stop")
+        out.append(q)
+    if len(runs) == 1 and runs[0]["epochs"] > 2:
+        for e2 in (runs[0]["epochs"] - 1, max(2, runs[0]["epochs"] // 2)):
+            q = copy.deepcopy(plan)
+            q["config"]["runs"] = [dict(runs[0], epochs=e2)]
+            if q["config"]["runs"][0].get("external_stop", 0) and q["config"]["runs"][0]["external_stop"] > e2:
+                q["config"]["runs"][0]["external_stop"] = e2
+            q["config"]["epochs"] = e2
+            out.append(q)
     for key in ("ev_period", "es_period", "patience"):
         if c[key] > 1:
             out.append(v(**{key: 1}))
